@@ -22,6 +22,10 @@ def run(ctx):
         rc, out, err = vlib.harness(["treemath", "--out", trace, "--max-log", max_log, "--pair-log", pair_log,
                                      "--samples", samples, "--seed", seed])
         summary = vlib.last_json(out)
+        for pr in summary.get("panics", []):
+            rp = vlib.replay_path("C20", f"panic-{pr.get('what')}-{pr.get('n')}-{pr.get('a')}")
+            json.dump(pr, open(rp, "w"))
+            violations.append({"key": f"panic:{pr.get('what')}:{pr.get('n')}:{pr.get('a')}", "what": f"tree arithmetic panicked for {pr}", "replay": rp})
     r = vlib.tlc("TreeMathTrace", workers=1, timeout=3000, env={"TRACE": trace}, name="treemath_trace", xmx="12g")
     bad_row = None
     if not r.ok:
